@@ -595,7 +595,7 @@ example : ∃ fuel' tr, obsOfRef (Ref.runProgram 6 demoFvErr Ref.initSt).1 = som
 /-! ## Stage D, second half — calls of first-order builtins (fragment Fc)
 
 `Fc` = Fv whose binder names (`def`/`set`/`let`/`letseq`) are not names of first-order builtins,
-plus calls `(h a₁ … aₙ)` where `h` is one of
+plus array literals `[e₁ … eₙ]` with elements in Fc, plus calls `(h a₁ … aₙ)` where `h` is one of
 `+ - * mod < > <= >= == != not cons first rest second list array len append concat aget aset hash
 hget hset trace` and the operands are in Fc. A call is ONE VM instruction (`callExpr`); executing it
 compiles every operand at run time into a fresh function object and runs it in a nested `Run`
@@ -670,6 +670,14 @@ def demoFc : List Expr :=
 
 example : FcList demoFc = true := by decide
 
+/-- `(def v [1 (+ 1 1) "s"]) (aset v 0 (len v)) (cons (aget v 0) (rest v))`: arrays by reference -/
+def demoFcArr : List Expr :=
+  [.def_ "v" (.arr [.int 1, .call (.sym "+") [.int 1, .int 1], .str "s"]),
+   .call (.sym "aset") [.sym "v", .int 0, .call (.sym "len") [.sym "v"]],
+   .call (.sym "cons") [.call (.sym "aget") [.sym "v", .int 0], .call (.sym "rest") [.sym "v"]]]
+
+example : FcList demoFcArr = true := by decide
+
 /-- `(def a (+ 1 2)) (trace (* a a))`: value 9, one `trace` call -/
 def demoFcSmall : List Expr :=
   [.def_ "a" (.call (.sym "+") [.int 1, .int 2]), .call (.sym "trace") [.call (.sym "*") [.sym "a", .sym "a"]]]
@@ -705,9 +713,9 @@ def InProvedFragment (p : List Expr) : Prop := FvList p = true ∨ FcList p = tr
 
 /-- **The part of `CompileCorrect` that is NOT proved**: programs that are neither in Fv nor in
 Fc — i.e. using calls whose head is not the name of a first-order builtin (user functions,
-`map`/`apply`/`force`, computed heads), array literals, `for`/`break`/`continue`, `fn`/`defn`, a `let`
-with a repeated name, an empty `begin`/`newScope`, or (together with calls) a binder that re-uses
-a builtin name. Held by the 3-way `eval` correspondence on every run, not by a theorem. -/
+`map`/`apply`/`force`, computed heads), `for`/`break`/`continue`, `fn`/`defn`, a `let`
+with a repeated name, an empty `begin`/`newScope`, or (together with calls or array literals) a
+binder that re-uses a builtin name. Held by the 3-way `eval` correspondence on every run, not by a theorem. -/
 def CompileCorrectOutsideProved : Prop := CompileCorrectOn (fun p => ¬ InProvedFragment p)
 
 /-- `compile_correct_partial`: what is proved of the semantic statement.
@@ -719,7 +727,7 @@ def CompileCorrectOutsideProved : Prop := CompileCorrectOn (fun p => ¬ InProved
      (distinct names) — `compile_correct_on_Fv`;
    * Fc — the same with binder names that are not builtin names, plus calls of first-order
      builtins (arithmetic, comparisons, `not`, lists, arrays, strings, `trace`), operands evaluated
-     in nested runs — `compile_correct_on_Fc`;
+     in nested runs, and array literals — `compile_correct_on_Fc`;
    * for the effect-free sub-fragment F0c with explicit fuel on both sides — `compile_correct_F0c`;
 2. the full `CompileCorrect` follows from its restriction to the remaining programs
    (`CompileCorrectOutsideProved`, the precise unproved remainder);
@@ -727,7 +735,7 @@ def CompileCorrectOutsideProved : Prop := CompileCorrectOn (fun p => ¬ InProved
 
 MISSING (held by the `eval` correspondence only): `CompileCorrectOutsideProved` — F1
 (`for`/`break`/`continue`), F2 (closures, user calls, varargs, recursion), F3 (self tail calls,
-`map`/`apply`, lazy parameters), array literals. -/
+`map`/`apply`, lazy parameters). -/
 theorem compile_correct_partial :
     CompileCorrectOn InProvedFragment
     ∧ (CompileCorrectOutsideProved → CompileCorrect)
